@@ -1311,6 +1311,19 @@ def _force(x):
 
 
 def stack(ts, axis=0):
+  if hasattr(ts, "_pyvc_symlen"):
+    if axis != 0:
+      raise Unsupported("stack of a symbolic-length sequence along axis != 0")
+    n = ts._pyvc_symlen()
+    c = cur()
+    k0 = SInt(c.fresh_int("k_stack"))
+    c.oblige(f"stack-nonempty@{getattr(c, 'site', '')}", n > 0, kind="shape",
+             detail="need at least one array to stack")
+    c.assume(sym.sand(k0 >= 0, k0 < n))
+    probe = asarray(ts._pyvc_at(k0))
+    seq_ = ts
+    return Tensor((n,) + probe.shape, probe.dtype,
+                  lambda idx: asarray(seq_._pyvc_at(idx[0])).at(idx[1:]))
   ts = [asarray(t) for t in ts]
   if not ts:
     c = cur()
